@@ -74,7 +74,14 @@ func verifAssert(label string, c bool) {
 
 //@ func (*OngoingTx).set
 
+// con-c04 (C04, additive): nil only if every indexer wait that was issued returned nil (ghost counters verif_c04 in
+// zz_verif_contracts_c04.go; one wait per element of the indexer map: the map iteration itself is not modelled);
+// a full waitee table is reported as an error before anything is waited for.
 //@ func (*ImmuStore).WaitForIndexingUpto
+//@   ensures c04_all_ok: r0 == nil ==> verif_c04_waits - old(verif_c04_waits) == verif_c04_waitsOK - old(verif_c04_waitsOK)
+//@   ensures c04_limit: old(s.waiteesCount) == old(s.maxWaitees) ==> r0 == watchers.ErrMaxWaitessLimitExceeded && verif_c04_waits == old(verif_c04_waits)
+//@   loop 1 invariant c04_all_ok: verif_c04_waits - old(verif_c04_waits) == verif_c04_waitsOK - old(verif_c04_waitsOK)
+//@   loop 1 assigns verif_c04_waits, verif_c04_waitsOK
 
 //@ func (*ImmuStore).ReplicateTx
 //@   loop 1 invariant range: 0 <= i && i <= len(exportedTx)
